@@ -382,7 +382,7 @@ impl NetCtx {
                     .map(|r| {
                         let name = r["name"].as_str().unwrap();
                         mk_resource(name, strs(&r["aliases"]), r["kind"].as_str().unwrap(),
-                                    r["perm"].as_u64().unwrap_or(0) as u8, vec![], name)
+                                    r["perm"].as_u64().unwrap_or(0) as u8, vec![], r["content"].as_str().unwrap_or(name))
                     })
                     .collect()
             })
@@ -462,6 +462,8 @@ pub fn replay_net(ctx: &NetCtx, c: &Value, rep: &mut Report) {
         }
     }
     let mut nontrivial = false;
+    let reload = c.get("reload").and_then(|m| m.as_bool()).unwrap_or(false);
+    let wire = c.get("wire").and_then(|w| w.as_array()).and_then(|a| a.get(0));
     for opt in [false, true] {
         let eng = match guarded(|| build_engine(&rules, &tags, &ctx.resources, opt)) {
             Ok(e) => e,
@@ -470,43 +472,89 @@ pub fn replay_net(ctx: &NetCtx, c: &Value, rep: &mut Report) {
                 continue;
             }
         };
-        for (qi, q) in ctx.reqs.iter().enumerate() {
-            let req = match Request::new(&q.url, &q.src, &q.alias) {
-                Ok(r) => r,
-                Err(_) => {
-                    rep.skipped += 1;
-                    continue;
+        let mut engines: Vec<(&str, Engine)> = vec![];
+        if reload {
+            // C08: a second engine loaded from the serialized image of the first; the caller's
+            // enabled tags are set on it before loading (and must survive the load)
+            let loaded = guarded(|| {
+                let bytes = eng.serialize_raw().expect("serialize");
+                let mut e2 = Engine::new(opt);
+                let t: Vec<&str> = tags.iter().map(|s| s.as_str()).collect();
+                e2.use_tags(&t);
+                e2.deserialize(&bytes).expect("deserialize of own image");
+                e2.use_resources(ctx.resources.to_vec());
+                e2
+            });
+            match loaded {
+                Ok(e2) => engines.push(("after-reload", e2)),
+                Err(p) => rep.mismatch(json!({"what": "reload", "rules": rules, "tags": tags, "opt": opt, "observed": "panic", "panic": p, "devs": []})),
+            }
+        }
+        engines.insert(0, ("", eng));
+        let mut first: Vec<Option<(Value, Value)>> = vec![];
+        for (label, eng) in engines.iter() {
+            for (qi, q) in ctx.reqs.iter().enumerate() {
+                let req = match Request::new(&q.url, &q.src, &q.alias) {
+                    Ok(r) => r,
+                    Err(_) => {
+                        rep.skipped += 1;
+                        if label.is_empty() { first.push(None); }
+                        continue;
+                    }
+                };
+                rep.evaluations += 1;
+                let obs = match guarded(|| (eng.check_network_request(&req), eng.get_csp_directives(&req))) {
+                    Ok((r, csp)) => (verdict_json(&r), csp_json(&csp)),
+                    Err(p) => (json!({"panic": p}), json!("panic")),
+                };
+                if obs.0["matched"] == json!(true) || obs.0["exception"] == json!(true) || obs.0["redirect"] != json!("")
+                    || obs.0["rewritten"] != json!("") || obs.1 != json!([]) {
+                    nontrivial = true;
                 }
-            };
-            rep.evaluations += 1;
-            let obs = match guarded(|| (eng.check_network_request(&req), eng.get_csp_directives(&req))) {
-                Ok((r, csp)) => (verdict_json(&r), csp_json(&csp)),
-                Err(p) => (json!({"panic": p}), json!("panic")),
-            };
-            if obs.0["matched"] == json!(true) || obs.0["exception"] == json!(true) || obs.0["redirect"] != json!("")
-                || obs.0["rewritten"] != json!("") || obs.1 != json!([]) {
-                nontrivial = true;
-            }
-            if !allowed_has(&v_allowed[qi], &obs.0) {
-                let (devs, model) = match dev.get(&qi) {
-                    // the model may itself be a set (ties); "model" = observed iff the model allows it
-                    Some(d) => (d["names"].clone(), if allowed_has(&d["mv"], &obs.0) { obs.0.clone() } else { d["mv"].clone() }),
-                    None => (json!([]), Value::Null),
-                };
-                rep.mismatch(json!({"what": "verdict", "rules": rules, "tags": tags, "opt": opt,
-                    "req": {"url": q.url, "src": q.src, "type": q.alias},
-                    "observed": obs.0, "allowed": v_allowed[qi], "devs": devs, "model": model}));
-            }
-            let csp_ok = csp_allowed[qi].as_array().unwrap().iter().any(|a| sorted_set(a) == obs.1);
-            if !csp_ok {
-                let (devs, model) = match dev.get(&qi) {
-                    Some(d) => (d["names"].clone(),
-                        if d["mcsp"].as_array().unwrap().iter().any(|a| sorted_set(a) == obs.1) { obs.1.clone() } else { d["mcsp"].clone() }),
-                    None => (json!([]), Value::Null),
-                };
-                rep.mismatch(json!({"what": "csp", "rules": rules, "tags": tags, "opt": opt,
-                    "req": {"url": q.url, "src": q.src, "type": q.alias},
-                    "observed": obs.1, "allowed": csp_allowed[qi], "devs": devs, "model": model}));
+                if !allowed_has(&v_allowed[qi], &obs.0) {
+                    let (mut devs, mut model) = match dev.get(&qi) {
+                        // the model may itself be a set (ties); "model" = observed iff the model allows it
+                        Some(d) => (d["names"].clone(), if allowed_has(&d["mv"], &obs.0) { obs.0.clone() } else { d["mv"].clone() }),
+                        None => (json!([]), Value::Null),
+                    };
+                    if !label.is_empty() {
+                        if let Some(w) = wire {
+                            if allowed_has(&w["mv"][qi], &obs.0) {
+                                devs = w["names"].clone();
+                                model = obs.0.clone();
+                            }
+                        }
+                    }
+                    rep.mismatch(json!({"what": format!("verdict{}", if label.is_empty() { "".to_string() } else { format!("-{}", label) }),
+                        "rules": rules, "tags": tags, "opt": opt,
+                        "req": {"url": q.url, "src": q.src, "type": q.alias},
+                        "observed": obs.0, "allowed": v_allowed[qi], "devs": devs, "model": model}));
+                }
+                let csp_ok = csp_allowed[qi].as_array().unwrap().iter().any(|a| sorted_set(a) == obs.1);
+                if !csp_ok {
+                    let (devs, model) = match dev.get(&qi) {
+                        Some(d) => (d["names"].clone(),
+                            if d["mcsp"].as_array().unwrap().iter().any(|a| sorted_set(a) == obs.1) { obs.1.clone() } else { d["mcsp"].clone() }),
+                        None => (json!([]), Value::Null),
+                    };
+                    rep.mismatch(json!({"what": format!("csp{}", label), "rules": rules, "tags": tags, "opt": opt,
+                        "req": {"url": q.url, "src": q.src, "type": q.alias},
+                        "observed": obs.1, "allowed": csp_allowed[qi], "devs": devs, "model": model}));
+                }
+                if label.is_empty() {
+                    first.push(Some(obs));
+                } else if let Some(Some(orig)) = first.get(qi) {
+                    // C08 literally: the reloaded engine answers like the original
+                    if *orig != obs {
+                        let (devs, model) = match wire {
+                            Some(w) if allowed_has(&w["mv"][qi], &obs.0) => (w["names"].clone(), json!({"v": obs.0, "csp": obs.1})),
+                            _ => (json!([]), Value::Null),
+                        };
+                        rep.mismatch(json!({"what": "reload-differs", "rules": rules, "tags": tags, "opt": opt,
+                            "req": {"url": q.url, "src": q.src, "type": q.alias},
+                            "observed": {"v": obs.0, "csp": obs.1}, "allowed": [{"v": orig.0, "csp": orig.1}], "devs": devs, "model": model}));
+                    }
+                }
             }
         }
     }
